@@ -107,6 +107,9 @@ impl Ctx {
 
     /// Runs a query, returning canonical result text. A panic discards the machine.
     pub fn query(&mut self, text: &str, max: usize) -> String {
+        // build the machine (lazily, ~0.3 s, much longer under load) BEFORE arming the watchdog,
+        // so that the bootstrap is never interrupted
+        let _ = self.machine();
         self.arm();
         let res = {
             let m = self.machine();
@@ -204,6 +207,7 @@ fn main() {
             "L" => {
                 let module = f.get(2).copied().unwrap_or("user").to_string();
                 let prog = unescape(f.get(3).copied().unwrap_or(""));
+                let _ = ctx.machine(); // build before arming the watchdog
                 ctx.arm();
                 let r = {
                     let m = ctx.machine();
